@@ -8,6 +8,8 @@ CONSTANTS
   Reporters = {"aggregation", "includer"}
   ReportOnCancel = {"includer"}
   ErrCap = 2
+  Unjoined = {}
   SendIgnoresCancel = FALSE
+INVARIANTS EveryActivityReturned
 PROPERTIES StopsEventually StopsPromptly RunReturns
 CHECK_DEADLOCK FALSE
